@@ -50,3 +50,20 @@ package ast
 // (non-associative), operands of unary operators and of field/subscript access at most that level.
 // @ spec parenfreeBin(b) = isBinOp(b.Op) && prec(b.Left) <= binPrec(b.Op) && prec(b.Right) < binPrec(b.Op) && (binPrec(b.Op) == 9 ==> prec(b.Left) < 9)
 // @ spec parenfree(x) = (typeIs(x, "*ast.BinaryExpr") ==> parenfreeBin(as(x, "*ast.BinaryExpr"))) && (typeIs(x, "*ast.UnaryExpr") ==> isUnOp(as(x, "*ast.UnaryExpr").Op) && prec(as(x, "*ast.UnaryExpr").Expr) <= unPrec(as(x, "*ast.UnaryExpr").Op)) && (typeIs(x, "*ast.IndexExpr") ==> prec(as(x, "*ast.IndexExpr").Expr) <= 1) && (typeIs(x, "*ast.SelectorExpr") ==> prec(as(x, "*ast.SelectorExpr").Expr) <= 1) && (typeIs(x, "*ast.InExpr") ==> prec(as(x, "*ast.InExpr").Left) < 9) && (typeIs(x, "*ast.IsNullExpr") ==> prec(as(x, "*ast.IsNullExpr").Left) < 9) && (typeIs(x, "*ast.IsBoolExpr") ==> prec(as(x, "*ast.IsBoolExpr").Left) < 9) && (typeIs(x, "*ast.BetweenExpr") ==> prec(as(x, "*ast.BetweenExpr").Left) < 9 && prec(as(x, "*ast.BetweenExpr").RightStart) < 9 && prec(as(x, "*ast.BetweenExpr").RightEnd) < 9)
+
+// ---------------------------------------------------------------------------------------------
+// Bad nodes (C10): the unparse of the skipped tokens puts a blank between two tokens exactly when the
+// input had something (blank space or a comment) between them, so that the text lexes to the same tokens.
+// The parser's error handlers establish gapsOK for every Tokens slice they build (tokensOK in the
+// parser contracts).
+// @ spec gapsOK(ts) = forall k: 0 <= k && k < len(ts) ==> ts[k] != nil && (k + 1 < len(ts) ==> ts[k].End <= ts[k + 1].Pos && (len(ts[k + 1].Space) > 0 || len(ts[k + 1].Comments) > 0) == (ts[k].End < ts[k + 1].Pos))
+
+// @ func ast.(*BadNode).SQL
+// @   props C10
+// @   requires b != nil && gapsOK(b.Tokens)
+// @   ensures[C10] empty: len(b.Tokens) == 0 ==> len(result) == 0
+// @   panics never
+// @   modifies nothing
+// @   loop 0 invariant 0 - 1 <= rangeindex && rangeindex < len(b.Tokens) && (rangeindex < 0 ==> len(sql) == 0)
+// @   loop 0 step[C10] sep: len(sql) == prev(len(sql)) + len(b.Tokens[rangeindex].Raw) + ite(prev(len(sql)) > 0 && rangeindex >= 1 && b.Tokens[rangeindex - 1].End < b.Tokens[rangeindex].Pos, 1, 0)
+// @   loop 0 decreases len(b.Tokens) - rangeindex
